@@ -35,6 +35,13 @@ fn main() {
             let Some(p) = props.iter().find(|p| p.id() == id) else { usage() };
             worker_main(p.as_ref(), tier, seed.parse().unwrap_or(0), index.parse().unwrap_or(0), per.parse().unwrap_or(0))
         }
+        Some("--regen") => {
+            // --regen <ID> <tier> <seed> <worker> <cases> <len> <file>
+            let (Some(id), Some(tier), Some(seed), Some(index), Some(k), Some(len), Some(f)) = (args.get(1), args.get(2), args.get(3), args.get(4), args.get(5), args.get(6), args.get(7)) else { usage() };
+            let tier = if tier == "thorough" { Tier::Thorough } else { Tier::Quick };
+            let Some(p) = props.iter().find(|p| p.id() == id) else { usage() };
+            regen_main(p.as_ref(), tier, seed.parse().unwrap_or(0), index.parse().unwrap_or(0), k.parse().unwrap_or(0), len.parse().unwrap_or(0), Path::new(f))
+        }
         Some("--plan") => {
             // --plan <ID> <case file>
             let (Some(id), Some(f)) = (args.get(1), args.get(2)) else { usage() };
